@@ -2,6 +2,7 @@ package main
 
 import (
 	"crypto/x509"
+	"encoding/json"
 	"errors"
 	"fmt"
 	"math/big"
@@ -14,7 +15,7 @@ func init() { register("C19", "Run.C19", genC19) }
 
 type c19cert struct {
 	raw, subj, key, serial, iss int
-	x                          *x509.Certificate
+	x                           *x509.Certificate
 }
 
 func (c c19cert) term() string {
@@ -94,6 +95,16 @@ func genC19(tier string, rng *RNG, w *CaseWriter) {
 		if (k/4)%2 == 1 {
 			tz = 1700000000 + int64(k)
 			tm = time.Unix(tz, 0)
+		} else {
+			// the zero instant in different representations (IsZero is about the instant, not the location)
+			switch (k / 8) % 4 {
+			case 1:
+				tm = time.Time{}.Local()
+			case 2:
+				tm = time.Time{}.In(time.FixedZone("east", 3600))
+			case 3:
+				json.Unmarshal([]byte(`"0001-01-01T00:00:00+00:00"`), &tm)
+			}
 		}
 		var ch, tr []*x509.Certificate
 		var cht, trt []string
